@@ -214,7 +214,14 @@ def check_cases(ctx, cases):
             ctx.count("rem-target=" + case["kind"])
             ctx.count("rem-ctx=%d" % len(case["ctx"]))
             ctx.count("epoch_side=" + ("before" if case["dt"]["u"] < 0 else "after"))
-            m = build_rem(case)
+            try:
+                m = build_rem(case)
+            except Exception as e:
+                ctx.fail(case, f"an admissible (target kind, context) combination is refused at construction: {type(e).__name__}: {str(e)[:100]}", "admissible-combination-rejected:" + case["kind"])
+                impls.append(None)
+                reqs.append({"op": "ping"})
+                reqs.append({"op": "ping"})
+                continue
             man = git_objects.raw_extrinsic_metadata_git_object(m)
             gitfmt.dict_form_agrees(ctx, case, git_objects.raw_extrinsic_metadata_git_object, m, man)
             impls.append((man, m.id))
@@ -293,6 +300,8 @@ def check_cases(ctx, cases):
     res = ctx.model(reqs)
     for ci, case in enumerate(cases):
         r1, r2 = res[2 * ci], res[2 * ci + 1]
+        if impls[ci] is None:
+            continue
         man, oid = impls[ci]
         if "error" in r1 or "error" in r2:
             if ctx.model_available:
